@@ -153,7 +153,7 @@ def run_config(ctx, prog, features, label='default'):
                 break
         if verdict is None:
             for m in manual:
-                if m['function'] == short(site['fn'].path) and m['kind'] == site['kind'] and m.get('max_sites', 99) >= counts[base]:
+                if m['function'] == short(site['fn'].path) and m['kind'] == site['kind'] and m.get('max_sites', 99) >= counts[base] and _use_manual(ctx, m, site):
                     verdict = ('M-' + m['id'], m['reason'] + ' (manual, reviewed; not re-validated automatically)')
                     ctx.trust('manual discharge %s: %s' % (m['id'], m['reason']))
                     break
@@ -177,6 +177,21 @@ def run_config(ctx, prog, features, label='default'):
     ctx.counters[pre + 'discharged'] = n_dis
     ctx.counters[pre + 'by_rule'] = by_rule
     lem.report()
+
+
+def _use_manual(ctx, m, site):
+    """a reviewed manual entry covers at most `max_sites` distinct sites per configuration, wherever they sit (in the named function
+    or in private helpers inlined into it): a further site of the same kind is new, unreviewed code and stays undischarged"""
+    used = ctx.__dict__.setdefault('_manual_used', {})
+    key = (ctx.prefix, m['id'])
+    sid = (short(site['fn'].path) if 'inlined' not in site['fn'].j else site.get('slug', ''), site.get('slug') or site.get('span'))
+    seen = used.setdefault(key, [])
+    if sid in seen:
+        return True
+    if len(seen) >= m.get('max_sites', 99):
+        return False
+    seen.append(sid)
+    return True
 
 
 def _direct_callers(prog, h):
@@ -247,7 +262,7 @@ def discharge_in_callers(ctx, prog, lem, manual, site, max_chain=4):
                     break
             if v is None:
                 for m in manual:
-                    if m['function'] == short(top.path) and m['kind'] == site['kind']:
+                    if m['function'] == short(top.path) and m['kind'] == site['kind'] and _use_manual(ctx, m, site):
                         v = ('M-' + m['id'], m['reason'] + ' (manual, reviewed; not re-validated automatically)')
                         ctx.trust('manual discharge %s: %s' % (m['id'], m['reason']))
                         break
